@@ -79,7 +79,9 @@ def processLine (line : String) : String :=
             some s!"PROP C06 attempt-log-does-not-number-the-sends {who} sends={gs} attempts={atts} {tag}"
           else if gf != fs then
             -- the outcome the classification table gives for this script under this budget
-            some s!"PROP C06 outcome-differs-from-the-classification-of-the-target's-answers {who} expected={fs} got={gf} sends={gs} {tag}"
+            -- (a policy denial that is not dead-lettered as policy_denied, or something else that is, concerns C16 as well)
+            let also := if fs == "dead:policy_denied" || gf == "dead:policy_denied" then ",C16" else ""
+            some s!"PROP C06{also} outcome-differs-from-the-classification-of-the-target's-answers {who} expected={fs} got={gf} sends={gs} {tag}"
           else if gs != s then some s!"PROP C06 number-of-sends-differs-from-the-retry-rule {who} expected={s} got={gs} {tag}"
           else none
         bad.getD "ok"
